@@ -66,6 +66,11 @@ Section Steps.
     - apply (S_hnd Hi).
   Qed.
 
+  Ltac refs_frame := intros; first [reflexivity | apply refs_set_refs_other; assumption].
+  Ltac next_frame := intros; first [reflexivity | apply next_set_next_other; assumption].
+  Ltac nodeof Hp := try rewrite Hp; cbn; first [left; reflexivity | right; reflexivity].
+  Ltac own_change Hst := right; rewrite Hst; cbn; repeat split; auto; discriminate.
+
   (** a thread whose phase names no node it is responsible for justifies no node state *)
   Ltac st_cases a n Ho :=
     let Es := fresh "Es" in
